@@ -1,3 +1,924 @@
 package c13
 
-func (ru *runner) crashPoints() {}
+import (
+	"bufio"
+	"bytes"
+	"context"
+	"encoding/json"
+	"fmt"
+	"os"
+	"os/exec"
+	"path/filepath"
+	"regexp"
+	"runtime"
+	"sort"
+	"strconv"
+	"strings"
+	"sync"
+	"syscall"
+	"testing"
+	"time"
+)
+
+// ---- child side ---------------------------------------------------------------------
+
+const childEnv = "VERIF_C13_CHILD"
+
+type childConf struct {
+	Inst   instConf `json:"inst"`
+	Role   string   `json:"role"` // "refresh": start, then Rounds refreshes; "restart": start, observe
+	Rounds int      `json:"rounds"`
+	Out    string   `json:"out"`
+}
+
+type childEvent struct {
+	Ev  string       `json:"ev"`
+	K   int          `json:"k,omitempty"`
+	Res *refreshRes  `json:"res,omitempty"`
+	Obs *observation `json:"obs,omitempty"`
+	Err string       `json:"err,omitempty"`
+}
+
+// TestChild is the body of the child processes of the crash-point experiment.
+// It does nothing unless the parent set the role variable.
+func TestChild(t *testing.T) {
+	raw := os.Getenv(childEnv)
+	if raw == "" {
+		t.Skip("not a child")
+	}
+	// All file system calls of a refresh are made by the goroutine that calls
+	// Refresh; pinning it to one thread makes "the N-th renameat/fsync/... of
+	// the thread" (how strace counts injections) enumerate them in order.
+	runtime.LockOSThread()
+	var cc childConf
+	if err := json.Unmarshal([]byte(raw), &cc); err != nil {
+		fmt.Fprintln(os.Stderr, "child: bad conf:", err)
+		os.Exit(3)
+	}
+	out, err := os.OpenFile(cc.Out, os.O_WRONLY|os.O_CREATE|os.O_APPEND, 0o644)
+	if err != nil {
+		fmt.Fprintln(os.Stderr, "child: out:", err)
+		os.Exit(3)
+	}
+	emit := func(e childEvent) {
+		b, _ := json.Marshal(e)
+		_, _ = out.Write(append(b, '\n'))
+	}
+	ctx := context.Background()
+	in, err := newInstance(t, cc.Inst)
+	if err != nil {
+		emit(childEvent{Ev: "construct-failed", Err: err.Error()})
+		os.Exit(4)
+	}
+	res := in.start(ctx)
+	emit(childEvent{Ev: "start-done", Res: &res})
+	if !res.ok() {
+		// the real binary exits when the initial refresh fails
+		os.Exit(5)
+	}
+	switch cc.Role {
+	case "refresh":
+		for k := 1; k <= cc.Rounds; k++ {
+			rr := in.refresh(ctx)
+			emit(childEvent{Ev: "round-done", K: k, Res: &rr})
+		}
+	case "restart":
+		o := in.observe(ctx)
+		emit(childEvent{Ev: "observation", Obs: &o})
+	}
+	emit(childEvent{Ev: "exit"})
+	_ = out.Close()
+	os.Exit(0)
+}
+
+// ---- parent side --------------------------------------------------------------------
+
+type childRun struct {
+	Events   []childEvent
+	ExitCode int
+	Signal   string
+	Stderr   string
+	Dur      time.Duration
+}
+
+func (c childRun) has(ev string) bool {
+	for _, e := range c.Events {
+		if e.Ev == ev {
+			return true
+		}
+	}
+	return false
+}
+
+func (c childRun) roundsDone() int {
+	n := 0
+	for _, e := range c.Events {
+		if e.Ev == "round-done" {
+			n++
+		}
+	}
+	return n
+}
+
+func readEvents(path string) []childEvent {
+	f, err := os.Open(path)
+	if err != nil {
+		return nil
+	}
+	defer f.Close()
+	var out []childEvent
+	sc := bufio.NewScanner(f)
+	sc.Buffer(make([]byte, 1<<20), 1<<24)
+	for sc.Scan() {
+		var e childEvent
+		if json.Unmarshal(sc.Bytes(), &e) == nil && e.Ev != "" {
+			out = append(out, e)
+		}
+	}
+	return out
+}
+
+// crashWorld is one worker's servers, template cache directory and work area.
+type crashWorld struct {
+	w        *world
+	base     string
+	template string
+	tmplDisk map[string][]byte
+	vmax     int
+	timeout  int
+	seq      int
+}
+
+// offer scripts every server: the n-th request for a target gets complete
+// version first+n (the mark list is static).  gate, if not nil, replaces the
+// first response of one target by a stalled transfer.
+func (cw *crashWorld) offer(first int, gate *behaviour, gateTarget string) {
+	for _, t := range allTargets {
+		t := t
+		cw.w.srv[t].setScript(func(n int) behaviour {
+			v := first + n
+			if v > cw.vmax {
+				v = cw.vmax
+			}
+			if gate != nil && t == gateTarget && n == 0 {
+				return *gate
+			}
+			return behaviour{Kind: bOK, Body: cw.w.content(t, v), Chunked: (n+len(t))%2 == 0, Version: v}
+		})
+	}
+}
+
+type startedChild struct {
+	cmd    *exec.Cmd
+	out    string
+	stderr *bytes.Buffer
+	t0     time.Time
+}
+
+// startChild launches a child (optionally under a wrapper such as strace).
+func (cw *crashWorld) startChild(dir, role string, rounds int, wrapper []string) (*startedChild, error) {
+	cw.seq++
+	out := filepath.Join(cw.base, fmt.Sprintf("child-%d.events", cw.seq))
+	tmp := filepath.Join(cw.base, "tmp")
+	_ = os.MkdirAll(tmp, 0o755)
+	cc := childConf{
+		Inst:   instConf{Dir: dir, URLs: cw.w.urls, TimeoutMs: cw.timeout, VMax: cw.vmax},
+		Role:   role,
+		Rounds: rounds,
+		Out:    out,
+	}
+	b, _ := json.Marshal(cc)
+	args := append([]string{}, wrapper...)
+	args = append(args, os.Args[0], "-test.run=^TestChild$", "-test.count=1")
+	cmd := exec.Command(args[0], args[1:]...)
+	cmd.Env = append(os.Environ(), childEnv+"="+string(b), "TMPDIR="+tmp, "GOMAXPROCS=2", "GORACE=")
+	var eb bytes.Buffer
+	cmd.Stderr = &eb
+	cmd.Stdout = nil
+	cmd.SysProcAttr = &syscall.SysProcAttr{Setpgid: true}
+	sc := &startedChild{cmd: cmd, out: out, stderr: &eb, t0: time.Now()}
+	if err := cmd.Start(); err != nil {
+		return nil, err
+	}
+	return sc, nil
+}
+
+// kill SIGKILLs the child's whole process group (strace and tracee).
+func (sc *startedChild) kill() {
+	if sc.cmd.Process != nil {
+		_ = syscall.Kill(-sc.cmd.Process.Pid, syscall.SIGKILL)
+	}
+}
+
+func (sc *startedChild) wait(limit time.Duration) (cr childRun, timedOut bool) {
+	done := make(chan error, 1)
+	go func() { done <- sc.cmd.Wait() }()
+	select {
+	case <-done:
+	case <-time.After(limit):
+		timedOut = true
+		sc.kill()
+		<-done
+	}
+	cr.Dur = time.Since(sc.t0)
+	if ps := sc.cmd.ProcessState; ps != nil {
+		cr.ExitCode = ps.ExitCode()
+		if ws, ok := ps.Sys().(syscall.WaitStatus); ok && ws.Signaled() {
+			cr.Signal = ws.Signal().String()
+		}
+	}
+	cr.Stderr = sc.stderr.String()
+	if len(cr.Stderr) > 2000 {
+		cr.Stderr = cr.Stderr[len(cr.Stderr)-2000:]
+	}
+	cr.Events = readEvents(sc.out)
+	_ = os.Remove(sc.out)
+	return cr, timedOut
+}
+
+const childLimit = 120 * time.Second
+
+func copyDir(src, dst string) error {
+	if err := os.MkdirAll(dst, 0o755); err != nil {
+		return err
+	}
+	des, err := os.ReadDir(src)
+	if err != nil {
+		return err
+	}
+	for _, de := range des {
+		if !de.Type().IsRegular() {
+			continue
+		}
+		b, err := os.ReadFile(filepath.Join(src, de.Name()))
+		if err != nil {
+			return err
+		}
+		if err = os.WriteFile(filepath.Join(dst, de.Name()), b, 0o600); err != nil {
+			return err
+		}
+	}
+	return nil
+}
+
+func (ru *runner) newCrashWorld(id int, vmax int) (*crashWorld, error) {
+	r := ru.r
+	rng := r.Rand("crash-world", id)
+	w, err := newWorld(rng)
+	if err != nil {
+		return nil, err
+	}
+	cw := &crashWorld{w: w, base: filepath.Join(ru.scratch, fmt.Sprintf("crash%02d", id)), vmax: vmax, timeout: 8000}
+	cw.template = filepath.Join(cw.base, "template")
+	if err = os.MkdirAll(cw.template, 0o755); err != nil {
+		w.close()
+		return nil, err
+	}
+	for _, t := range allTargets {
+		for v := 1; v <= vmax; v++ {
+			w.legit.add(t, v, w.content(t, v))
+		}
+		w.srv[t].gateCh = make(chan gateEvt, 4)
+	}
+	// The template (version 1 of everything) is produced by the real code: a
+	// child that starts on an empty cache directory.
+	cw.offer(1, nil, "")
+	sc, err := cw.startChild(cw.template, "restart", 0, nil)
+	if err != nil {
+		w.close()
+		return nil, err
+	}
+	cr, _ := sc.wait(childLimit)
+	if !cr.has("exit") {
+		w.close()
+		return nil, fmt.Errorf("template child failed: exit=%d signal=%s events=%s stderr=%s", cr.ExitCode, cr.Signal, vkit_json(cr.Events), cr.Stderr)
+	}
+	cw.tmplDisk, err = readDisk(cw.template)
+	if err != nil {
+		w.close()
+		return nil, err
+	}
+	for _, t := range allTargets {
+		name := cacheFileOf(t)
+		if t == tMark {
+			name = markPrefix + "1"
+		}
+		if v, ok := w.legit.versionOf(t, cw.tmplDisk[name]); !ok || v != 1 {
+			w.close()
+			return nil, fmt.Errorf("template lacks version 1 of %s", name)
+		}
+	}
+	return cw, nil
+}
+
+func vkit_json(v any) string {
+	b, _ := json.Marshal(v)
+	return string(b)
+}
+
+func (cw *crashWorld) close() {
+	cw.w.close()
+	_ = os.RemoveAll(cw.base)
+}
+
+// diskAfterKill checks the cache directory after a kill: every file that
+// existed before is still there and every file is a complete version that the
+// case allows.  It returns the state signature (one character per target).
+func (ru *runner) diskAfterKill(cw *crashWorld, dir string, maxV int, checkMissing bool, key string, wit map[string]any) (sig string, vers map[string]int, ok bool) {
+	r := ru.r
+	ok = true
+	files, err := readDisk(dir)
+	if err != nil {
+		r.Inconclusive("cannot read cache dir: " + err.Error())
+		return "", nil, false
+	}
+	vers = map[string]int{}
+	summ := map[string]string{}
+	bad := func(k, what, name string, b []byte) {
+		ok = false
+		wm := map[string]any{}
+		for a, x := range wit {
+			wm[a] = x
+		}
+		wm["file"], wm["cache_dir"] = name, summ
+		if b != nil {
+			wm["file_bytes"] = describeBytes(b)
+		}
+		r.Violation(key+":"+k, what, wm)
+	}
+	names := make([]string, 0, len(files))
+	for n := range files {
+		names = append(names, n)
+	}
+	sort.Strings(names)
+	for _, n := range names {
+		t, known := targetOfFile(n)
+		if !known {
+			r.Bucket("cache_files_unknown_name", 1)
+			summ[n] = "unknown-file"
+			continue
+		}
+		r.Bucket("cache_files_compared_after_kill", 1)
+		v, legit := cw.w.legit.versionOf(t, files[n])
+		if !legit || (t != tMark && v > maxV) {
+			what := "unrecognised"
+			for lv, lb := range cw.w.legit[t] {
+				if len(files[n]) < len(lb) && bytes.HasPrefix(lb, files[n]) {
+					what = fmt.Sprintf("a strict prefix (%d of %d bytes) of complete version %d", len(files[n]), len(lb), lv)
+				}
+			}
+			summ[n] = "NOT-A-COMPLETE-VERSION: " + what
+			if t != tMark {
+				vers[t] = -1
+			}
+			bad("cache-file-not-previous-or-new:"+targetClass(t), "after the kill a cache file is neither the previous nor the new complete version ("+what+")", n, files[n])
+			continue
+		}
+		summ[n] = fmt.Sprintf("v%d", v)
+		if t != tMark {
+			vers[t] = v
+		}
+	}
+	for n := range cw.tmplDisk {
+		if _, there := files[n]; !there && checkMissing {
+			summ[n] = "MISSING"
+			bad("cache-file-missing", "after the kill a cache file that existed before the refresh is gone", n, nil)
+		}
+	}
+	var sb strings.Builder
+	for _, t := range allTargets {
+		if t == tMark {
+			m := 0
+			for n := range files {
+				if strings.HasPrefix(n, markPrefix) {
+					m++
+				}
+			}
+			sb.WriteString(strconv.Itoa(m))
+			sb.WriteByte('|')
+			continue
+		}
+		switch v := vers[t]; {
+		case v < 0:
+			sb.WriteByte('X')
+		case v == 0:
+			sb.WriteByte('-')
+		default:
+			sb.WriteString(strconv.Itoa(v))
+		}
+	}
+	wit["cache_dir"] = summ
+	return sb.String(), vers, ok
+}
+
+// restartAfterKill starts a new child on dir with every server down and checks
+// that it starts and serves, for every list, the complete version on disk.
+func (ru *runner) restartAfterKill(cw *crashWorld, dir string, vers map[string]int, key string, wit map[string]any) {
+	r := ru.r
+	cw.w.allDown()
+	defer func() {
+		if err := cw.w.allUp(); err != nil {
+			r.Inconclusive("crash world: " + err.Error())
+		}
+	}()
+	sc, err := cw.startChild(dir, "restart", 0, nil)
+	if err != nil {
+		r.Inconclusive("cannot start child: " + err.Error())
+		return
+	}
+	cr, timedOut := sc.wait(childLimit)
+	if timedOut {
+		r.Bucket("child_watchdog", 1)
+		r.Inconclusive("restart child hit the watchdog")
+		return
+	}
+	r.Bucket("restarts_after_kill", 1)
+	cp := func() map[string]any {
+		wm := map[string]any{}
+		for a, x := range wit {
+			wm[a] = x
+		}
+		wm["restart_child"] = map[string]any{"exit": cr.ExitCode, "signal": cr.Signal, "events": cr.Events, "stderr": cr.Stderr}
+		return wm
+	}
+	var obs *observation
+	for _, e := range cr.Events {
+		if e.Ev == "observation" {
+			obs = e.Obs
+		}
+	}
+	if obs == nil || !cr.has("exit") {
+		r.Violation(key+":restart-fails", "after the kill a new process cannot start from the cache directory with the server down", cp())
+		return
+	}
+	post, unclean := versionsOf(*obs)
+	for _, t := range unclean {
+		wm := cp()
+		wm["list"], wm["hits_per_version"] = t, obs.Lists[t].Hits
+		r.Violation(key+":restart-serves-incomplete-version:"+targetClass(t), "after kill and restart a list serves something that is not one complete version", wm)
+	}
+	good := true
+	for _, t := range servingLists {
+		if vers[t] <= 0 || post[t] < 0 {
+			continue
+		}
+		if post[t] != vers[t] {
+			good = false
+			wm := cp()
+			wm["list"], wm["on_disk"], wm["served"] = t, vers[t], post[t]
+			r.Violation(key+":restart-serves-other-than-cache:"+targetClass(t), "after kill and restart a list does not serve the complete version that is in its cache file", wm)
+		}
+	}
+	if len(obs.Errs) > 0 {
+		good = false
+		r.Violation(key+":restart-filtering-error", "after kill and restart filtering fails", cp())
+	}
+	if good {
+		r.Bucket("restarts_after_kill_verified", 1)
+	}
+}
+
+type crashCase struct {
+	Idx    int    `json:"idx"`
+	Method string `json:"method"` // "stall", "inject", "random", "stall-empty-cache"
+	Target string `json:"target,omitempty"`
+	Chunk  int    `json:"chunk,omitempty"`
+	Of     int    `json:"of_chunks,omitempty"`
+	Sys    string `json:"syscall,omitempty"`
+	N      int    `json:"n,omitempty"`
+	Frac   float64 `json:"kill_at_fraction,omitempty"`
+	Rounds int    `json:"rounds,omitempty"`
+}
+
+func (c crashCase) class() string {
+	switch c.Method {
+	case "inject":
+		return fmt.Sprintf("crash/inject/%s/%d", c.Sys, c.N)
+	case "random":
+		return fmt.Sprintf("crash/random/%d", c.Idx)
+	default:
+		return fmt.Sprintf("crash/%s/%s/%d-of-%d", c.Method, c.Target, c.Chunk, c.Of)
+	}
+}
+
+type crashStats struct {
+	mu     sync.Mutex
+	points map[string]struct{}
+	bySys  map[string]map[string]struct{}
+}
+
+func (cs *crashStats) hit(method, sys string, sig string, last string) {
+	cs.mu.Lock()
+	defer cs.mu.Unlock()
+	k := fmt.Sprintf("%s|%s|%s|%s", method, sys, sig, last)
+	cs.points[k] = struct{}{}
+	if cs.bySys[method+"/"+sys] == nil {
+		cs.bySys[method+"/"+sys] = map[string]struct{}{}
+	}
+	cs.bySys[method+"/"+sys][sig+"|"+last] = struct{}{}
+}
+
+// lastServed tells which target the servers completed last (progress of the
+// child as seen from outside).
+func (cw *crashWorld) progress() string {
+	var parts []string
+	for _, t := range allTargets {
+		n := 0
+		for _, rec := range cw.w.srv[t].takeLog() {
+			if rec.Complete {
+				n++
+			}
+		}
+		parts = append(parts, strconv.Itoa(n))
+	}
+	return strings.Join(parts, ",")
+}
+
+func (ru *runner) runCrashCase(cw *crashWorld, c crashCase, st *crashStats, calib time.Duration, calibFirst time.Duration) {
+	r := ru.r
+	rng := r.Rand("crash-case", c.Idx)
+	dir := filepath.Join(cw.base, fmt.Sprintf("case%05d", c.Idx))
+	defer os.RemoveAll(dir)
+	_ = os.RemoveAll(dir)
+	emptyCache := c.Method == "stall-empty-cache"
+	if emptyCache {
+		if err := os.MkdirAll(dir, 0o755); err != nil {
+			r.Inconclusive(err.Error())
+			return
+		}
+	} else if err := copyDir(cw.template, dir); err != nil {
+		r.Inconclusive("copy template: " + err.Error())
+		return
+	}
+	for _, t := range allTargets {
+		cw.w.srv[t].takeLog()
+		for len(cw.w.srv[t].gateCh) > 0 {
+			<-cw.w.srv[t].gateCh
+		}
+	}
+	wit := map[string]any{"case": c}
+	key := "crash-" + c.Method
+	killed := false
+	maxV := 2
+	first := 2
+	if emptyCache {
+		first, maxV = 1, 1
+	}
+	var cr childRun
+	switch c.Method {
+	case "stall", "stall-empty-cache":
+		body := cw.w.content(c.Target, first)
+		g := behaviour{Kind: bGate, Body: body, GateChunk: c.Chunk, Version: first}
+		cw.offer(first, &g, c.Target)
+		sc, err := cw.startChild(dir, "refresh", 1, nil)
+		if err != nil {
+			r.Inconclusive("cannot start child: " + err.Error())
+			return
+		}
+		exited := make(chan struct{})
+		var timedOut bool
+		go func() { cr, timedOut = sc.wait(childLimit); close(exited) }()
+		select {
+		case <-cw.w.srv[c.Target].gateCh:
+			// the child is blocked reading the stalled transfer
+			time.Sleep(time.Duration(1+rng.IntN(6)) * time.Millisecond)
+			sc.kill()
+			killed = true
+			<-exited
+		case <-exited:
+			r.Bucket("stall_not_reached", 1)
+		}
+		if timedOut {
+			r.Bucket("child_watchdog", 1)
+		}
+	case "inject":
+		cw.offer(2, nil, "")
+		wrapper := []string{"strace", "-f", "-qq", "-o", "/dev/null", "-e", "trace=" + c.Sys, "-e", fmt.Sprintf("inject=%s:signal=SIGKILL:when=%d", c.Sys, c.N)}
+		sc, err := cw.startChild(dir, "refresh", 1, wrapper)
+		if err != nil {
+			r.Inconclusive("cannot start strace: " + err.Error())
+			return
+		}
+		var timedOut bool
+		cr, timedOut = sc.wait(childLimit)
+		if timedOut {
+			r.Bucket("child_watchdog", 1)
+			return
+		}
+		killed = !cr.has("exit")
+		if !killed {
+			r.Bucket("inject_not_hit", 1)
+		}
+	case "random":
+		maxV = c.Rounds + 1
+		cw.offer(2, nil, "")
+		sc, err := cw.startChild(dir, "refresh", c.Rounds, nil)
+		if err != nil {
+			r.Inconclusive("cannot start child: " + err.Error())
+			return
+		}
+		exited := make(chan struct{})
+		go func() { cr, _ = sc.wait(childLimit); close(exited) }()
+		delay := calibFirst + time.Duration(c.Frac*float64(calib-calibFirst))
+		select {
+		case <-time.After(delay):
+			sc.kill()
+			<-exited
+			killed = !cr.has("exit")
+		case <-exited:
+		}
+		if !killed {
+			r.Bucket("random_kill_too_late", 1)
+		}
+	}
+	wit["child"] = map[string]any{"exit": cr.ExitCode, "signal": cr.Signal, "events": cr.Events, "stderr": cr.Stderr, "killed": killed}
+	prog := cw.progress()
+	wit["downloads_completed_per_target"] = prog
+	if !killed && !cr.has("exit") {
+		// the child died by itself
+		r.Violation(key+":child-died", "the refreshing child process died without being killed", wit)
+	}
+	sig, vers, ok := ru.diskAfterKill(cw, dir, maxV, !emptyCache, key, wit)
+	if killed {
+		r.Bucket("kills", 1)
+		r.Bucket("kills/"+c.Method, 1)
+		sys := c.Sys
+		if c.Method != "inject" {
+			sys = c.Target
+		}
+		if c.Method == "stall" || c.Method == "stall-empty-cache" {
+			sys = fmt.Sprintf("%s@chunk%d", c.Target, c.Chunk)
+		}
+		st.hit(c.Method, sys, sig, prog)
+	}
+	if (c.Method == "stall") && killed && vers[c.Target] != 1 && c.Target != tMark && vers[c.Target] >= 0 {
+		r.Violation(key+":stalled-download-already-committed:"+targetClass(c.Target),
+			"the cache file was replaced although the transfer of the new version never completed", wit)
+	}
+	if emptyCache {
+		// nothing to restart from unless everything was downloaded; the files
+		// that exist were checked above
+		r.Eval(c.class(), killed)
+		return
+	}
+	if ok {
+		ru.restartAfterKill(cw, dir, vers, key, wit)
+	}
+	r.Eval(c.class(), killed)
+	if c.Idx%37 == 5 {
+		r.Sample(map[string]any{"crash_case": c, "killed": killed, "cache_dir_signature(idx,marks|,rl_a,rl_b,rl_c,svc,ss_gen,ss_yt,hp*3)": sig, "downloads_completed": prog})
+	}
+}
+
+var straceLine = regexp.MustCompile(`^(\d+)\s+([a-z0-9_]+)\(`)
+
+// calibrate runs one complete child under strace and returns, per syscall of
+// interest, the largest per-thread count, plus plain timing of an untraced run.
+func (ru *runner) calibrate(cw *crashWorld, syscalls []string, rounds int) (counts map[string]int, total, first time.Duration, err error) {
+	dir := filepath.Join(cw.base, "calib")
+	defer os.RemoveAll(dir)
+	if err = copyDir(cw.template, dir); err != nil {
+		return nil, 0, 0, err
+	}
+	cw.offer(2, nil, "")
+	logf := filepath.Join(cw.base, "strace.log")
+	wrapper := []string{"strace", "-f", "-qq", "-o", logf, "-e", "trace=" + strings.Join(syscalls, ",")}
+	sc, err := cw.startChild(dir, "refresh", 1, wrapper)
+	if err != nil {
+		return nil, 0, 0, err
+	}
+	cr, _ := sc.wait(childLimit)
+	if !cr.has("exit") {
+		return nil, 0, 0, fmt.Errorf("calibration child under strace failed: exit=%d signal=%s stderr=%s", cr.ExitCode, cr.Signal, cr.Stderr)
+	}
+	b, err := os.ReadFile(logf)
+	if err != nil {
+		return nil, 0, 0, err
+	}
+	_ = os.Remove(logf)
+	per := map[string]map[string]int{}
+	for _, ln := range strings.Split(string(b), "\n") {
+		m := straceLine.FindStringSubmatch(ln)
+		if m == nil {
+			continue
+		}
+		if per[m[2]] == nil {
+			per[m[2]] = map[string]int{}
+		}
+		per[m[2]][m[1]]++
+	}
+	counts = map[string]int{}
+	for s, byPid := range per {
+		for _, n := range byPid {
+			if n > counts[s] {
+				counts[s] = n
+			}
+		}
+	}
+	// untraced timing for the random kills
+	_ = os.RemoveAll(dir)
+	if err = copyDir(cw.template, dir); err != nil {
+		return nil, 0, 0, err
+	}
+	for _, t := range allTargets {
+		cw.w.srv[t].takeLog()
+	}
+	cw.offer(2, nil, "")
+	firstReq := make(chan time.Duration, 1)
+	t0 := time.Now()
+	stop := make(chan struct{})
+	go func() {
+		for {
+			cw.w.srv[tIdx].mu.Lock()
+			n := cw.w.srv[tIdx].reqs
+			cw.w.srv[tIdx].mu.Unlock()
+			if n > 0 {
+				firstReq <- time.Since(t0)
+				return
+			}
+			select {
+			case <-stop:
+				return
+			case <-time.After(200 * time.Microsecond):
+			}
+		}
+	}()
+	sc, err = cw.startChild(dir, "refresh", rounds, nil)
+	if err != nil {
+		close(stop)
+		return nil, 0, 0, err
+	}
+	cr, _ = sc.wait(childLimit)
+	close(stop)
+	if !cr.has("exit") {
+		return nil, 0, 0, fmt.Errorf("calibration child failed: exit=%d signal=%s stderr=%s", cr.ExitCode, cr.Signal, cr.Stderr)
+	}
+	total = cr.Dur
+	select {
+	case first = <-firstReq:
+	default:
+		first = total / 3
+	}
+	return counts, total, first, nil
+}
+
+func (ru *runner) crashPoints() {
+	r := ru.r
+	if os.Getenv("VERIF_C13_SKIP_CRASH") != "" {
+		return
+	}
+	if _, err := exec.LookPath("strace"); err != nil {
+		r.Inconclusive("strace is not available")
+		return
+	}
+	randRounds := r.N(5, 8)
+	vmax := randRounds + 2
+	workers := 6
+	cws := make([]*crashWorld, 0, workers)
+	for i := 0; i < workers; i++ {
+		cw, err := ru.newCrashWorld(i, vmax)
+		if err != nil {
+			r.Inconclusive("crash world: " + err.Error())
+			for _, c := range cws {
+				c.close()
+			}
+			return
+		}
+		cws = append(cws, cw)
+	}
+	defer func() {
+		for _, c := range cws {
+			c.close()
+		}
+	}()
+
+	fileSys := []string{"renameat", "utimensat", "fsync", "unlinkat"}
+	noisySys := []string{"openat", "write", "close", "read", "connect", "fstat"}
+	counts, total, first, err := ru.calibrate(cws[0], append(append([]string{}, fileSys...), noisySys...), randRounds)
+	if err != nil {
+		r.Inconclusive(err.Error())
+		return
+	}
+	r.Extra("strace_max_per_thread_syscall_counts_in_one_refresh", counts)
+	r.Extra("untraced_child_wall_ms", total.Milliseconds())
+
+	var cases []crashCase
+	idx := 0
+	add := func(c crashCase) { c.Idx = idx; idx++; cases = append(cases, c) }
+	// (a) stalled transfer, chunk k of m, every target
+	for _, t := range allTargets {
+		m := (len(cws[0].w.content(t, 2)) + chunkSize - 1) / chunkSize
+		ks := map[int]bool{0: true, m: true}
+		if r.Thorough() {
+			for k := 0; k <= m; k++ {
+				ks[k] = true
+			}
+		} else {
+			rng := r.Rand("crash-stall-k", len(cases))
+			for len(ks) < min(4, m+1) {
+				ks[rng.IntN(m+1)] = true
+			}
+		}
+		var kl []int
+		for k := range ks {
+			kl = append(kl, k)
+		}
+		sort.Ints(kl)
+		for _, k := range kl {
+			add(crashCase{Method: "stall", Target: t, Chunk: k, Of: m})
+		}
+	}
+	// (a') the same while the cache directory is being filled for the first time
+	for i, t := range allTargets {
+		if !r.Thorough() && i%3 != int(r.Seed%3) {
+			continue
+		}
+		m := (len(cws[0].w.content(t, 1)) + chunkSize - 1) / chunkSize
+		add(crashCase{Method: "stall-empty-cache", Target: t, Chunk: m / 2, Of: m})
+	}
+	// (b) SIGKILL injected at the N-th syscall of a kind
+	for _, s := range fileSys {
+		n := counts[s]
+		if n == 0 {
+			r.Bucket("syscall_never_seen/"+s, 1)
+			continue
+		}
+		lim := r.N(24, 1000)
+		rng := r.Rand("crash-inject-"+s, 0)
+		picked := map[int]bool{1: true, n: true}
+		if n <= lim {
+			for k := 1; k <= n; k++ {
+				picked[k] = true
+			}
+		}
+		for len(picked) < min(lim, n) {
+			picked[1+rng.IntN(n)] = true
+		}
+		var ns []int
+		for k := range picked {
+			ns = append(ns, k)
+		}
+		sort.Ints(ns)
+		for _, k := range ns {
+			add(crashCase{Method: "inject", Sys: s, N: k})
+		}
+	}
+	for _, s := range noisySys {
+		n := counts[s]
+		if n == 0 {
+			continue
+		}
+		lim := r.N(7, 60)
+		rng := r.Rand("crash-inject-"+s, 0)
+		picked := map[int]bool{}
+		for len(picked) < min(lim, n-n/3) {
+			// the second half of a thread's calls is where the refresh happens
+			picked[1+n/3+rng.IntN(n-n/3)] = true
+		}
+		var ns []int
+		for k := range picked {
+			ns = append(ns, k)
+		}
+		sort.Ints(ns)
+		for _, k := range ns {
+			add(crashCase{Method: "inject", Sys: s, N: k})
+		}
+	}
+	// (c) seeded random instants during several consecutive refreshes
+	for i := 0; i < r.N(24, 150); i++ {
+		rng := r.Rand("crash-random", i)
+		add(crashCase{Method: "random", Frac: rng.Float64(), Rounds: randRounds})
+	}
+	r.Extra("crash_cases", len(cases))
+
+	st := &crashStats{points: map[string]struct{}{}, bySys: map[string]map[string]struct{}{}}
+	ch := make(chan crashCase)
+	var wg sync.WaitGroup
+	for _, cw := range cws {
+		cw := cw
+		wg.Add(1)
+		go func() {
+			defer wg.Done()
+			for c := range ch {
+				ru.runCrashCase(cw, c, st, total, first)
+			}
+		}()
+	}
+	for _, c := range cases {
+		ch <- c
+	}
+	close(ch)
+	wg.Wait()
+
+	st.mu.Lock()
+	r.Bucket("distinct_crash_points", int64(len(st.points)))
+	per := map[string]int{}
+	for k, m := range st.bySys {
+		per[k] = len(m)
+		if strings.HasPrefix(k, "inject/") {
+			r.Bucket("distinct_crash_points/"+k, int64(len(m)))
+		}
+	}
+	st.mu.Unlock()
+	r.Extra("distinct_crash_points_by_method_and_syscall_or_target", per)
+}
